@@ -11,11 +11,11 @@ from harness import common
 from harness.common import Stream, hexb
 
 PID = "C16"
-LEAN_MODULES = ["Astm.Proofs.C16", "Astm.State.C16"]
+LEAN_MODULES = ["Astm.Proofs.C16", "Astm.State.C16", "Astm.Surface.C16"]
 THEOREMS = [
     "Astm.C16.inv_init", "Astm.C16.inv_step", "Astm.C16.inv_run", "Astm.C16.distinct_files_exact_bytes",
     "Astm.C16.every_delivery_reaches_a_writer", "Astm.C16.example_same_second",
-    "Astm.C16.anchored_code_keeps_no_other_state",
+    "Astm.C16.anchored_code_keeps_no_other_state", "Astm.C16.anchored_code_keeps_its_signatures",
 ]
 RULE = ("bursts of 1-12 messages (bytes and str payloads incl. non-ASCII text, equal payloads, empty payload) stored with a "
         "scripted clock (all in one second / spread over 2-3 seconds / clock stepping back), with and without "
